@@ -1609,7 +1609,7 @@ func (m *Machine) BindHandlers(handlers any, opts ...BindOpts) (string, error) {
 
 // DetachHandlers is deprecated, use [Api.HandlersDetach].
 func (m *Machine) DetachHandlers(bindingId string) error {
-	return m.DetachHandlers(bindingId)
+	return m.HandlersDetach(bindingId)
 }
 
 // Handlers returns the IDs of bound handlers.
